@@ -204,9 +204,18 @@ class _Proc:
         elif k == "same":                                     # the configuration under test itself, run to completion
             self.run_under_test([], record=False)
         elif k == "same_construct":                           # ... or only constructed (and dropped)
-            BADS(**make_problem(self.cfg, []))
+            BADS(**self._reuse_arrays(make_problem(self.cfg, [])))
         else:
             raise ValueError("unknown history op %r" % (op,))
+
+    def _reuse_arrays(self, kw):
+        """The caller keeps ITS OWN x0 / bound arrays and hands the same objects to every construction of the configuration in this
+        process (what a user re-running a problem does): an earlier instance that wrote into them is process history."""
+        keep = self.kept.setdefault("__arrays__", {})
+        for k in ("x0", "lower_bounds", "upper_bounds", "plausible_lower_bounds", "plausible_upper_bounds"):
+            if kw.get(k) is not None:
+                kw[k] = keep.setdefault(k, kw[k])
+        return kw
 
     def run_under_test(self, mid, record=True):
         from pybads import BADS
@@ -214,7 +223,7 @@ class _Proc:
         calls, probe = [], {}
         obs = dict(x0=None, calls=calls, result=None, error=None, model_tie=probe)
         try:
-            kw = make_problem(self.cfg, calls, probe)
+            kw = self._reuse_arrays(make_problem(self.cfg, calls, probe))
             # model tie: at the moment the constructor draws the random x0 the global stream must be the
             # freshly seeded one (== the draw is draw 0 of (seed, .)).  A forwarding wrapper around
             # np.random.uniform looks at the state and passes the call through unchanged.
